@@ -1317,6 +1317,14 @@ class Compiler:
             f = ex.lookup(mm.group(1))
             if f is not None:
                 return lambda fr, f=f: copy_val(ex.const_value(f))
+        # a const generic parameter of the enclosing function (`const N`): its value comes from the frame's bindings
+        if re.fullmatch(r'[A-Z][A-Z0-9_]*', c):
+            def _cparam(fr, c=c):
+                v = (fr.env or {}).get(c)
+                if v is not None and re.fullmatch(r'-?\d+', str(v).strip().split('_')[0]):
+                    return int(str(v).strip().split('_')[0])
+                return FnItem(c, fr.env)
+            return _cparam
         # function item used as a value
         if re.match(r'^[\w:<>{}#\[\] ,&\']+$', c) and ('::' in c or c.isidentifier()):
             return lambda fr: FnItem(c, fr.env)
